@@ -12,6 +12,7 @@ import (
 	"encoding/json"
 	"fmt"
 	"strings"
+	"time"
 
 	"verif/harness/hk"
 )
@@ -118,5 +119,38 @@ func modelEnvOf(kind string, framed bool, scn string) string {
 // waits: the client sits out its deadline under this scenario (so the history gets a short one).
 func waits(kind string, framed bool, scn string) bool { return modelEnvOf(kind, framed, scn) == "noAnswer" }
 
-var _ = fmt.Sprint
-var _ hk.Violation
+// answerDeadline: the per-call deadline of a handshake whose answer will not come (event: the deadline itself).
+const answerDeadline = 500 * time.Millisecond
+
+// probeDeadline > 0: measuring mode (VERIF_LIFECYCLE_PROBE=1): every scenario handshake gets this deadline.
+var probeDeadline time.Duration
+
+// probeMalformed prints what the code under test does for every scenario x client (how malformedToday was measured).
+func probeMalformed(dir string) {
+	installRecorder()
+	probeDeadline = 1500 * time.Millisecond
+	c := &hk.Ctx{Dir: dir}
+	p, done := newPeers(c)
+	defer done()
+	idx := 900000
+	for _, s := range scenarios {
+		for _, k := range []string{"streamable", "streamable@sse", "sse", "stdio"} {
+			kind, framed := strings.CutSuffix(k, "@sse")
+			ops := []cOp{{T: "init", E: "probe", S: s.Name, Framed: framed}, {T: "req", K: "ListTools"}, {T: "roots"}, {T: "terminate"}, {T: "init", E: "ok"}, {T: "req", K: "ListTools"}}
+			if kind == "stdio" {
+				ops = []cOp{ops[0], ops[1], ops[2], ops[4], ops[5]}
+			}
+			idx++
+			t0 := time.Now()
+			r := runClientHistory(p, kind, ops[:1], idx)
+			waited := time.Since(t0) > probeDeadline*9/10
+			idx++
+			r = runClientHistory(p, kind, ops, idx)
+			var parts []string
+			for _, o := range r.outs {
+				parts = append(parts, fmt.Sprintf("%s/%s/%s", o.Res, o.State, strings.Join(o.Wire, "+")))
+			}
+			fmt.Printf("%-22s %-15s waited=%-5v %s\n", s.Name, k, waited, parts[0])
+		}
+	}
+}
